@@ -226,14 +226,17 @@ func (v *Vue) parseObjectPairs(ctx VueContext, content string) []objectPair {
 			continue
 		}
 
-		// Split by colon
-		colonIdx := strings.Index(item, ":")
+		// Split by the colon that follows the key: a quoted key may hold colons itself ('md:flex')
+		colonIdx := objectKeyEnd(item)
 		if colonIdx == -1 {
 			continue
 		}
 
 		key := strings.TrimSpace(item[:colonIdx])
-		key = strings.Trim(key, "'")
+		if len(key) >= 2 && (key[0] == '\'' || key[0] == '"') && key[len(key)-1] == key[0] {
+			// 'key' and "key" name the key between the quotes
+			key = key[1 : len(key)-1]
+		}
 		valueExpr := strings.TrimSpace(item[colonIdx+1:])
 
 		// Try to resolve as expression first (handles literals and expressions)
@@ -253,6 +256,21 @@ func (v *Vue) parseObjectPairs(ctx VueContext, content string) []objectPair {
 	}
 
 	return pairs
+}
+
+// objectKeyEnd returns the index of the colon that ends the key of an object item, -1 if there
+// is none. In a key written in quotes the characters up to the closing quote are part of the key.
+func objectKeyEnd(item string) int {
+	if item != "" && (item[0] == '\'' || item[0] == '"') {
+		if end := strings.IndexByte(item[1:], item[0]); end >= 0 {
+			after := end + 2
+			if colon := strings.Index(item[after:], ":"); colon >= 0 {
+				return after + colon
+			}
+			return -1
+		}
+	}
+	return strings.Index(item, ":")
 }
 
 // splitObjectItems splits comma-separated items in an object, respecting quoted strings.
